@@ -120,6 +120,9 @@ func isNilErrorReturn(r *ssa.Return) bool {
 		return false
 	}
 	fn := r.Parent()
+	if cellKnownNonNil(fn, last, r) {
+		return false
+	}
 	may := false
 	valueOrigins(fn, last, func(root ssa.Value) {
 		switch x := root.(type) {
@@ -1140,4 +1143,73 @@ func checkSlotMappingSiblings(c *Ctx, rule string) {
 	} else {
 		c.Bad(rule, key, c.Pos(w.Pos()), "the pre-plot pass places values in map A differently from how map A is addressed by its readers: writer {"+mw+"} vs Get {"+mg+"} / Set {"+ms+"} — the boundary value lands in a slot no reader looks at, so its pair (and the proofs built from it) is missing from the finished table")
 	}
+}
+
+// cellKnownNonNil: v is a load of a variable cell (a captured `err`); another load of the same cell
+// was tested non-nil on an edge dominating the use, and between that test and the use the cell is
+// neither stored to nor can a closure capturing it run (no call receives such a closure).
+func cellKnownNonNil(fn *ssa.Function, v ssa.Value, use ssa.Instruction) bool {
+	ld, ok := v.(*ssa.UnOp)
+	if !ok || ld.Op != token.MUL {
+		return false
+	}
+	cell := rootCell(ld.X)
+	if cell == nil {
+		return false
+	}
+	// defer-spilled result: `*res = x; rundefers; return *res` — look through to x at the spill
+	if rd := rdOf(fn); rd != nil && !rd.fromEntry[ld] && len(rd.loads[ld]) == 1 {
+		if st, isSt := rd.loads[ld][0].(*ssa.Store); isSt {
+			if _, isLoad := st.Val.(*ssa.UnOp); isLoad && st.Val != v {
+				if cellKnownNonNil(fn, st.Val, st) {
+					return true
+				}
+			}
+		}
+	}
+	touches := func(in ssa.Instruction) bool {
+		switch x := in.(type) {
+		case *ssa.Store:
+			return rootCell(x.Addr) == cell
+		case ssa.CallInstruction:
+			for _, a := range x.Common().Args {
+				if mc, isMC := a.(*ssa.MakeClosure); isMC {
+					for _, b := range mc.Bindings {
+						if rootCell(b) == cell {
+							return true
+						}
+					}
+				}
+				if rootCell(a) == cell {
+					return true
+				}
+			}
+		}
+		return false
+	}
+	found := false
+	allInstrs(fn, func(in ssa.Instruction) {
+		l2, ok := in.(*ssa.UnOp)
+		if found || !ok || l2.Op != token.MUL || rootCell(l2.X) != cell {
+			return
+		}
+		for _, t := range nilTestsOf(fn, l2) {
+			if len(t.NonNil.Preds) != 1 || !t.NonNil.Dominates(use.Block()) {
+				continue
+			}
+			r := reach(fn, l2, nil, nil)
+			clean := true
+			allInstrs(fn, func(x ssa.Instruction) {
+				if clean && touches(x) && r(x) {
+					if reach(fn, x, nil, nil)(use) {
+						clean = false
+					}
+				}
+			})
+			if clean {
+				found = true
+			}
+		}
+	})
+	return found
 }
